@@ -70,6 +70,8 @@ var apiFiles = []treeFile{
 	{Name: "bad-in-shadowed-arg", Src: "PARTIAL-OUTPUT-MARKER @component(\"~whoami\", {who: who.nope()}) after"},
 	// a component argument that fails with one data map and is fine with the next (the page stays what it is)
 	{Name: "argdep", Src: "arg:@component(\"~whoami\", {k: u.name.upper()})|@component(\"~whoami\")"},
+	// a page that fails after more output than any buffer between the render and the response holds
+	{Name: "bad-after-long", Src: "PARTIAL-OUTPUT-MARKER " + strings.Repeat("0123456789abcdef", 600) + "{{ x = 1 }}" + strings.Repeat("fedcba9876543210", 600) + "{{ items[0] / 0 }} after"},
 	// a value behind a pointer the caller keeps and changes between calls: what is visible is the value at the time of the call
 	{Name: "shared", Src: "sh:{{ sp.name }}|{{ sp.tags }}"},
 	// number literals that reach ++ / -- (a loaded program is evaluated many times; a literal is the same number every time)
